@@ -312,8 +312,11 @@ class RelMon:
 # twins (the pruned twin multiplies fewer blocks; its relative tolerance refers to a smaller initial residual).
 # The non-convergence relevance pruning can CAUSE (convergence norm sees entries nobody solves for) leaves residuals
 # of the size of the seed / of the transferred derivative values, many orders above this floor.
-# ScipyKrylov monitors gmres' own estimate |r|/|b| as `abs_res` (and that divided by its first value as `rel_res`);
-# block solvers monitor |A x - b| and |A x - b| / |initial residual|.
+# Block solvers monitor the true |A x - b| and |A x - b| / |initial residual|.  ScipyKrylov only monitors gmres' own
+# recurrence ESTIMATE of |r|/|b|, which drops to 0 at a breakdown even when the system is inconsistent (true residual
+# O(1): exactly what a seed entry nobody solves for produces) - useless here.  For ScipyKrylov the monitor therefore
+# takes the TRUE residual gmres itself decides on: b is copied when solve() starts, and the last operator application
+# of a gmres run is its final `r = b - A x`.
 FLOOR_REL = 2e-8
 FLOOR_ABS = 1e-10       # |b| is a unit seed or a derivative value >= ~1e-3 in these models; 1e-10 is >= 1e3 * atol
 _FLOOR_REPORTS = [0, 0]     # floor-level reports not judged: [relevance-enabled twins, disabled twins]
@@ -350,6 +353,36 @@ class SeedFailureMonitor(FailureMonitor):
         def _mpi_print(slf, iteration, abs_res, rel_res):
             mon._last[id(slf)] = (float(abs_res), float(rel_res))
             return mon._orig_print(slf, iteration, abs_res, rel_res)
+
+        from openmdao.solvers.linear.scipy_iter_solver import ScipyKrylov
+        self._kcls = ScipyKrylov
+        self._orig_ksolve = ScipyKrylov.__dict__['solve']
+        self._orig_kmatvec = ScipyKrylov.__dict__['_mat_vec']
+        self._kb = {}
+        self._kax = {}
+
+        def ksolve(slf, mode, rel_systems=None):
+            sys_ = slf._system()
+            bvec = sys_._dresiduals if mode == 'fwd' else sys_._doutputs
+            mon._kb[id(slf)] = bvec.asarray(True)
+            mon._kax.pop(id(slf), None)
+            return mon._orig_ksolve(slf, mode, rel_systems)
+
+        def kmatvec(slf, in_arr):
+            out = mon._orig_kmatvec(slf, in_arr)
+            mon._kax[id(slf)] = np.array(out, copy=True)
+            return out
+
+        def _true_residual(slf):
+            """(|b - A x|, |b - A x| / |b|) of the solver's last iterate, or None if unknown."""
+            if isinstance(slf, ScipyKrylov):
+                b, ax = mon._kb.get(id(slf)), mon._kax.get(id(slf))
+                if b is None or ax is None or b.shape != ax.shape:
+                    return None
+                r = float(np.linalg.norm(b - ax))
+                nb = float(np.linalg.norm(b))
+                return (r, r / nb if nb > 0.0 else np.inf)
+            return mon._last.get(id(slf))
 
         def _rel_off_groups(root):
             from openmdao.core.group import Group
@@ -410,7 +443,7 @@ class SeedFailureMonitor(FailureMonitor):
                 incol = slf._system()._problem_meta.get('coloring_randgen') is not None
             except Exception:
                 pass
-            last = mon._last.get(id(slf))
+            last = _true_residual(slf)
             rec = (type(slf).__name__, msg, seeds, mixed, full, incol, irr_only)
             if isinstance(slf, LinearSolver) and last is not None and \
                     (last[1] <= FLOOR_REL or last[0] <= FLOOR_ABS):
@@ -424,10 +457,14 @@ class SeedFailureMonitor(FailureMonitor):
             return mon._orig(slf, msg)
         Solver.report_failure = report_failure
         Solver._mpi_print = _mpi_print
+        ScipyKrylov.solve = ksolve
+        ScipyKrylov._mat_vec = kmatvec
         return self
 
     def __exit__(self, *a):
         self._cls._mpi_print = self._orig_print
+        self._kcls.solve = self._orig_ksolve
+        self._kcls._mat_vec = self._orig_kmatvec
         return super().__exit__(*a)
 
 
@@ -883,8 +920,14 @@ def _judge_totals_cell(acc, sp, fm, u, p, S, cond, dep, kind, mode, gbk, plan, c
         if ':DEADSEED:' in what:
             lab, _, obs = what.partition(':DEADSEED:')
             return 'dead-seed:%s-totals:%s:ln=%s:mode=%s' % (obs, lab.replace('wrong-', ''), kind, mode)
+        if live_fc[0] and what.startswith('wrong-'):
+            # a solver reported (real, not round-off level) non-convergence for a live seed only in the enabled twin:
+            # wrong totals are the consequence of that failure (e.g. ScipyKrylov leaves its last Krylov vector in the
+            # solution vector when gmres fails) - same mechanism, keyed under the failure class
+            return '%s:wrong-totals-after-solver-failure:totals:%s:mode=%s' % (live_fc[0], live_fc[1], mode)
         return 'totals:%s:ln=%s:mode=%s:api=%s' % (what, kind, mode, plan['api'] if plan['api'] == 'explicit'
                                                     else 'declared-' + plan['driver'])
+    live_fc = [None, None]
     on = _run_totals_twin(sp, mode, plan, norel=False)
     off = _run_totals_twin(sp, mode, plan, norel=True)
     # ---- the disabled twin must really be disabled ------------------------------------------------------
@@ -921,6 +964,8 @@ def _judge_totals_cell(acc, sp, fm, u, p, S, cond, dep, kind, mode, gbk, plan, c
         kinds_f = sorted(set(f[0] for f in on['failures']))
         fc = _fail_class(on['failures'], on.get('src2spec', {}), dep)
         bad.append(('solver-fails-only-with-relevance:%s' % '+'.join(kinds_f), fc, float(len(on['failures']))))
+        if fc.startswith('live-seed'):
+            live_fc[:] = [fc, '+'.join(kinds_f)]
         if fc != 'dead-seed' and os.environ.get('OMV_DEBUG'):
             print('LIVE-SEED failure', fc, ccase, on['failures'][:3], file=sys.stderr)
     # baseline sanity: the disabled twin must agree with R, otherwise this is not C24's case
